@@ -6,6 +6,7 @@ use bytes::Bytes;
 use quinn_proto::{ConnectionError, Dir, Event, ReadError, Side, VarInt};
 
 use crate::app::Workload;
+use crate::cfgs::TKnobs;
 use crate::chooser::Chooser;
 use crate::runner::{Family, PropSpec, RunCtx, RunOut};
 use crate::scen::{Basic, BasicOpts, TAG_USER};
@@ -43,6 +44,8 @@ pub struct C08Scen {
     b: Basic,
     closes: Vec<CloseOp>,
     crash: Option<(Ns, bool)>,
+    /// the peer disappears right after having sent its k-th datagram: (client, k)
+    crash_after: Option<(bool, u64)>,
     restart: Option<Ns>,
     track: BTreeMap<u32, ConnTrack>,
     crashed_node: Option<u32>,
@@ -60,6 +63,18 @@ fn close_frames(payload: &[u8]) -> Vec<Frame> {
 }
 
 impl C08Scen {
+    fn do_crash(&mut self, w: &mut World, client: bool) {
+        let node = if client { self.b.clients[0] } else { self.b.server };
+        w.nodes[node as usize].alive = false;
+        for c in w.conns.iter_mut().filter(|c| c.node == node) {
+            c.frozen = true;
+        }
+        self.crashed_node = Some(node);
+        self.crash_time = Some(w.now);
+        w.faults.hit("peer_crash");
+        w.logf(|| format!("node{} crashed", node));
+    }
+
     /// Upper bound on any probe timeout the connection can have computed, from observable facts
     /// only: R bounds every RTT sample (two one-way delays, the peer's ack delay, driver lateness).
     fn pto_ub(&self, _w: &World) -> Ns {
@@ -382,15 +397,7 @@ impl Scenario for C08Scen {
             self.do_close(w, &op);
         } else if tag == TAG_CRASH {
             if let Some((_, client)) = self.crash {
-                let node = if client { self.b.clients[0] } else { self.b.server };
-                w.nodes[node as usize].alive = false;
-                for c in w.conns.iter_mut().filter(|c| c.node == node) {
-                    c.frozen = true;
-                }
-                self.crashed_node = Some(node);
-                self.crash_time = Some(w.now);
-                w.faults.hit("peer_crash");
-                w.logf(|| format!("node{} crashed", node));
+                self.do_crash(w, client);
             }
         } else if tag == TAG_RESTART {
             // the server process restarts: fresh endpoint, same stateless-reset key
@@ -452,6 +459,13 @@ impl Scenario for C08Scen {
     }
     fn after_step(&mut self, w: &mut World) {
         self.b.after_step(w);
+        if let Some((client, k)) = self.crash_after {
+            let node = if client { self.b.clients[0] } else { self.b.server };
+            if self.crashed_node.is_none() && w.conns.iter().filter(|c| c.node == node).map(|c| c.tx_datagrams).sum::<u64>() >= k {
+                self.do_crash(w, client);
+                w.faults.hit("peer_crash_after_kth_datagram");
+            }
+        }
         if w.violations.is_empty() {
             self.check_step(w);
         }
@@ -476,15 +490,41 @@ fn run(ch: Chooser, ctx: &RunCtx, mut opts: BasicOpts, mode: u32) -> RunOut {
         opts.fault_phase_max_ms = 0;
         opts.ops_max = 0;
         opts.idle_choices = vec![Some(2000), Some(600), Some(5000)];
+    } else if mode == 4 {
+        // slow path, impatient endpoints, very different idle timeouts on the two sides: the
+        // survivor of the crash is often unable to send (its window is full of retransmitted
+        // first flights) when the last packet it will ever get arrives
+        opts.idle_choices = vec![];
+        let mut sk = TKnobs::draw(&mut w.ch);
+        let mut ck = TKnobs::draw(&mut w.ch);
+        for k in [&mut sk, &mut ck] {
+            k.initial_rtt_ms = *w.ch.pick("c08.initial_rtt", &[10u64, 50, 100]);
+        }
+        let patient = *w.ch.pick("c08.idle_patient", &[Some(10_000u64), Some(30_000), None]);
+        let hasty = *w.ch.pick("c08.idle_hasty", &[Some(100u64), Some(400), Some(1000)]);
+        if w.ch.chance("c08.hasty_client", 1, 3) {
+            (ck.idle_ms, sk.idle_ms) = (hasty, patient);
+        } else {
+            (ck.idle_ms, sk.idle_ms) = (patient, hasty);
+        }
+        for k in [&mut sk, &mut ck] {
+            if w.ch.chance("c08.tiny_window", 1, 2) {
+                k.harness_cc = Some((*w.ch.pick("c08.tiny_window.base", &[2400u64, 3000, 5000]), false));
+            }
+        }
+        opts.fixed_knobs = Some((sk, ck));
     } else {
         opts.idle_choices = vec![Some(30_000), None, Some(100), Some(400), Some(2000), Some(10_000)];
     }
     let b = Basic::build(&mut w, opts);
+    if mode == 4 {
+        w.net.base_delay = *w.ch.pick("c08.slow_delay_ms", &[400u64, 150, 800, 1500]) * MS;
+    }
     if mode == 2 {
         // keep-alive only protects an established connection whose round trip fits the idle timeout
         w.net.base_delay = w.net.base_delay.min(5 * MS);
     }
-    let mut sc = C08Scen { b, closes: Vec::new(), crash: None, restart: None, track: BTreeMap::new(), crashed_node: None, crash_time: None, restarted: false, end_at: 0, ended: false, keepalive_world: mode == 2, pto_ub_stat: 0.0, pto_max: 0 };
+    let mut sc = C08Scen { b, closes: Vec::new(), crash: None, crash_after: None, restart: None, track: BTreeMap::new(), crashed_node: None, crash_time: None, restarted: false, end_at: 0, ended: false, keepalive_world: mode == 2, pto_ub_stat: 0.0, pto_max: 0 };
     let horizon_ms = (sc.b.fault_end / MS + 2500).max(500);
     match mode {
         0 => {
@@ -504,12 +544,22 @@ fn run(ch: Chooser, ctx: &RunCtx, mut opts: BasicOpts, mode: u32) -> RunOut {
                 w.wake_at(at, TAG_CLOSE + i as u64);
             }
         }
+        4 => {
+            let client = w.ch.chance("c08.crash_client", 1, 3);
+            sc.crash_after = Some((client, w.ch.range_log("c08.crash_k", 1, 8)));
+        }
         1 => {
             // the peer disappears after any prefix of the exchange
             let at = w.ch.range_log("c08.crash_at_us", 0, horizon_ms * 1000) * 1000;
             let client = w.ch.chance("c08.crash_client", 1, 2);
-            sc.crash = Some((at, client));
-            w.wake_at(at, TAG_CRASH);
+            if w.ch.chance("c08.crash_after_kth", 1, 3) {
+                // ... or right after its k-th datagram: whatever that datagram tells the
+                // survivor is the last thing it ever hears
+                sc.crash_after = Some((client, w.ch.range_log("c08.crash_k", 1, 12)));
+            } else {
+                sc.crash = Some((at, client));
+                w.wake_at(at, TAG_CRASH);
+            }
         }
         2 => {}
         _ => {
@@ -565,7 +615,7 @@ fn run(ch: Chooser, ctx: &RunCtx, mut opts: BasicOpts, mode: u32) -> RunOut {
             }
         }
     }
-    if w.violations.is_empty() && mode == 1 {
+    if w.violations.is_empty() && (mode == 1 || mode == 4) {
         // a silent peer must be noticed when an idle timeout is configured
         if let (Some(node), Some(tc)) = (sc.crashed_node, sc.crash_time) {
             for c in &w.conns {
@@ -586,7 +636,7 @@ fn run(ch: Chooser, ctx: &RunCtx, mut opts: BasicOpts, mode: u32) -> RunOut {
         }
     }
     let mut o = RunOut::from_world(&mut w);
-    o.config = format!("mode={} server={:?} client={:?} net={:?} closes={:?} crash={:?} restart={:?}", mode, sc.b.server_knobs, sc.b.client_knobs, w.net, sc.closes, sc.crash, sc.restart);
+    o.config = format!("mode={} server={:?} client={:?} net={:?} closes={:?} crash={:?}/{:?} restart={:?}", mode, sc.b.server_knobs, sc.b.client_knobs, w.net, sc.closes, sc.crash, sc.crash_after, sc.restart);
     o.stats.insert("pto_upper_bound_ms", sc.pto_ub_stat);
     let _ = (Side::Client, Workload::new(Default::default()).sides.len(), sc.keepalive_world, sc.restarted);
     o
@@ -601,6 +651,9 @@ fn fam_crash(ch: Chooser, ctx: &RunCtx) -> RunOut {
 fn fam_keepalive(ch: Chooser, ctx: &RunCtx) -> RunOut {
     run(ch, ctx, BasicOpts { keepalive_rate: 1000, streams_max: 2, size_max: 5000, ..Default::default() }, 2)
 }
+fn fam_crash_slow(ch: Chooser, ctx: &RunCtx) -> RunOut {
+    run(ch, ctx, BasicOpts { allow_corrupt: false, streams_max: 2, size_max: 5000, ..Default::default() }, 4)
+}
 fn fam_restart(ch: Chooser, ctx: &RunCtx) -> RunOut {
     run(ch, ctx, BasicOpts { allow_corrupt: false, retry: 0, ..Default::default() }, 3)
 }
@@ -609,8 +662,9 @@ pub fn spec() -> PropSpec {
     PropSpec {
         id: "C08",
         families: vec![
-            Family { name: "close-anytime", f: fam_close, weight: 50 },
-            Family { name: "peer-crash", f: fam_crash, weight: 25 },
+            Family { name: "close-anytime", f: fam_close, weight: 45 },
+            Family { name: "peer-crash", f: fam_crash, weight: 20 },
+            Family { name: "peer-crash-slow-path", f: fam_crash_slow, weight: 10 },
             Family { name: "keep-alive", f: fam_keepalive, weight: 10 },
             Family { name: "server-restart", f: fam_restart, weight: 15 },
         ],
